@@ -2135,10 +2135,9 @@ int yr_execute_code(YR_SCAN_CONTEXT* context)
       YR_DEBUG_FPRINTF(2, stderr, "- case OP_DBL_LT: // %s()\n", __FUNCTION__);
       pop(r2);
       pop(r1);
-      if (is_undef(r1) || is_undef(r2))
-        r1.i = false;
-      else
-        r1.i = r1.d < r2.d;
+      ensure_defined(r2);
+      ensure_defined(r1);
+      r1.i = r1.d < r2.d;
       push(r1);
       break;
 
